@@ -25,11 +25,15 @@ RULE = ("Operation lists (quick 20-50, thorough 40-300 ops, behind an initial ME
         "(body from the C17 canonical generator behind PRINT \"T<tag>\":END, lengths 12..170), delete "
         "by empty line (existing and missing), DELETE a-b/a-/-b/a/none (existing, missing, partial), "
         "RENUM with all argument forms (accepted and rejected), SAVE,A/tokenised + LOAD or NEW+MERGE, "
-        "MERGE of a harness-written text file, NEW, rejected line numbers > 65529, LIST of a "
+        "MERGE of a harness-written text file (lines out of order, duplicates, empty and blank-only "
+        "lines, leading blanks, bare CR, missing final line break / 1A), NEW, rejected line numbers > 65529, LIST of a "
         "sub-range. Non-trivial: the history replaces a line by one of a different length, or "
         "deletes a range in the middle of the program, or re-inserts a deleted number; distinct = "
         "distinct operation list.")
 ASSUMPTIONS = [
+    "text program files: empty lines and lines of blanks are ignored, blanks before the line number "
+    "are skipped, CR and CR LF both end a line, the final line break and the 1A are optional "
+    "(GW-BASIC practice; LF-only files are not generated)",
     "program memory is read in one statement with BSAVE over the data segment, which goes through "
     "the same byte-wise memory interface as PEEK; the program-start pointer is read with PEEK(&H30)",
     "DELETE follows the manual: the inclusive range may name missing numbers; Illegal function "
@@ -372,7 +376,11 @@ def check_hist(case, res):
                     at = tagged(atoms, step * 1000 + i)
                     texts.append(G.line_text(num, at))
                     pending.append((num, at, step * 1000 + i))
-                write_text_file(s, 'M.BAS', texts)
+                fmt = op.get('fmt')
+                if fmt:
+                    res.label('mergefile:layout-variation')
+                with open(os.path.join(s.sandbox.z, 'M.BAS'), 'wb') as f:
+                    f.write(progio.text_file_bytes(texts, fmt))
                 if run_ok(s, res, step, 'MERGE', b'MERGE "M.BAS"') is None:
                     return res
                 for num, at, tag in pending:
@@ -486,9 +494,9 @@ def st_op():
                                 st.integers(1, 200)), st_probe())
     saveload = st.builds(lambda m, p: {'op': 'saveload', 'mode': m, 'probe': p},
                          st.sampled_from(['A-LOAD', 'A-NEW-MERGE', 'A-MERGE', 'B-LOAD']), st_probe())
-    mergefile = st.builds(lambda ls, p: {'op': 'mergefile', 'lines': ls, 'probe': p},
+    mergefile = st.builds(lambda ls, p, f: {'op': 'mergefile', 'lines': ls, 'probe': p, 'fmt': f},
                           st.lists(st.tuples(sel, st_body()).map(list), min_size=1, max_size=5),
-                          st_probe())
+                          st_probe(), progio.st_text_fmt())
     new = st.just({'op': 'NEW', 'probe': [0]})
     bad = st.sampled_from([65530, 65531, 65535, 65536, 70000, 99999]).map(
         lambda n: {'op': 'enter_bad', 'num': n, 'probe': [1]})
@@ -559,6 +567,10 @@ REGRESSIONS = [
         {'op': 'saveload', 'mode': 'B-LOAD', 'probe': [0, 1]},
         {'op': 'mergefile', 'lines': [[['ex', 0], _L()], [['abs', 7], _L()], [['abs', 7], _L(
             ['p', ':'], ['k', 'BEEP', 0])]], 'probe': [0, 1]},
+        {'op': 'mergefile', 'lines': [[['abs', 300], _L()], [['abs', 280], _L(['p', ':'], ['k', 'BEEP', 0])],
+                                      [['abs', 300], _L(['p', ':'], ['k', 'CLS', 0])], [['abs', 290], _L()]],
+         'fmt': {'per': [{'e': 1, 'b': 0, 'l': 0, 'cr': False}, {'e': 0, 'b': 4, 'l': 3, 'cr': True}],
+                 'tail': 0, 'brk': False, 'eof': False}, 'probe': [0, 1]},
         {'op': 'enter_bad', 'num': 65530, 'probe': [1]},
         {'op': 'DELETE', 'a': ['abs', 0], 'b': ['abs', 0], 'form': '', 'probe': [2]},
         {'op': 'NEW', 'probe': [0]},
